@@ -13,9 +13,9 @@ Property C09 — the fundamental-group presentation presents the orbifold fundam
 Property theorems only.  They speak about the executable model `DSymVerif.FG.*`
 (Model/FundGroup.lean, tied to fundamental_group.rs by the differential check: the whole
 `FundamentalGroup` value is compared on every explored symbol) for ALL symbols — no bound on
-size or dimension.  The comparison of the presented group with the textbook presentation is
-decided by the Spec (Spec/C09.lean) on the implementation's outputs; the full statement is kept
-as `presents_orbifold_group_statement` (open obligation).
+size or dimension.  The isomorphism of the presented group with the textbook presentation is
+proved for the model (`presents_orbifold_group`, section 9) and, independently, decided by the Spec
+(Spec/C09.lean) through presentation invariants on the implementation's outputs.
 
 Vocabulary (Proofs/FundGroup*.lean, namespace `DSymVerif.FGP`):
   `Invol ds`    every operation of the symbol is an involution where defined
@@ -33,6 +33,8 @@ import DSymVerif.Proofs.FundGroupLetters
 import DSymVerif.Proofs.FundGroupSpecMain
 import DSymVerif.Proofs.FundGroupSpecGlue
 import DSymVerif.Proofs.FundGroupInnerFaces
+import DSymVerif.Proofs.FundGroupWalkWords
+import DSymVerif.Proofs.CoversMonitors
 import DSymVerif.Spec.C09
 
 namespace DSymVerif.C09
@@ -179,6 +181,80 @@ theorem cones_are_traced_words (ds : DSymData) (f : FundGroup)
 
 example : fundamentalGroup symB = .ok fgB := by decide +kernel
 
+/-! ## 5a. … stated without the model's `trace_word` and `orbit_reps_2d` -/
+
+/-- the whole hypothesis bundle of sections 5a–11 on a BRANCHED symbol: `symB = <1.1:2:2,2,2:4,3>`
+    is a valid connected symbol of dimension 2 with `v_01 = 4`, `v_12 = 3`, the model returns `fgB`
+    on it, and the cone list of `fgB` is not empty -/
+theorem symB_hyps : ValidSym symB ∧ 1 ≤ symB.dim ∧ 1 ≤ symB.size ∧ symB.view.isConnected = true ∧
+    fundamentalGroup symB = .ok fgB ∧ fgB.cones ≠ [] ∧
+    symB.vPartial 0 1 1 = .ok (some 4) ∧ symB.vPartial 1 2 1 = .ok (some 3) :=
+  ⟨Covers.validSymB_sound (by decide +kernel), by decide, by decide, by decide +kernel,
+    by decide +kernel, by decide, by decide +kernel, by decide +kernel⟩
+
+/-- **the cone list, independently of `trace_word` / `orbit_reps_2d`.**  For every valid symbol on
+    which the model returns `f` there is, for all `i ≤ j ≤ dim`, a list `reps i j` of chambers meeting
+    every `(i,j)`-orbit exactly once (`D2.RepsOK`: in range, pairwise in different orbits `Orb2`,
+    every chamber in the orbit of one of them) such that a pair is in the returned cone set iff it is
+    `(relator_representative(word), v)` for a representative `d` with `v = v_ij(d) > 1`, where `word`
+    is THE freely reduced word representing the product of the returned edge words along the closed
+    walk `s_i d —j→ · —i→ · —j→ …` of `2r` crossings, `r` the least period of `s_i ∘ s_j` at `s_i d`
+    (`OrbitWalkWord`: C02's `IsLeastPeriod`, the walk product `Wf`, `den` = element of `FreeGroup ℕ`;
+    a reduced word is determined by the element it denotes, `FWP.eq_of_den_eq`).
+    `relator_representative` (C10: least rotation of the word or of its inverse) is the stated
+    normalisation; the starting chamber inside an orbit is the representative's. -/
+theorem cones_are_orbit_walk_words (ds : DSymData) (hs : ValidSym ds) (f : FundGroup)
+    (h : fundamentalGroup ds = .ok f) :
+    ∃ reps : Nat → Nat → List Nat,
+      (∀ i j, i ≤ j → j ≤ ds.dim → D2.RepsOK ds i j (reps i j)) ∧
+      ∀ c : List Int × Nat, c ∈ f.cones ↔
+        ∃ i j d word v, i ≤ j ∧ j ≤ ds.dim ∧ d ∈ reps i j ∧
+          OrbitWalkWord ds f.edgeToWord i j d word v ∧ v > 1 ∧
+          c = (FW.relatorRepresentative word, v) := by
+  refine ⟨fun i j => ds.view.orbitReps2d i j,
+    fun i j hij hj => D2.orbitReps2d_ok hs.set (by omega) hj, fun c => ?_⟩
+  rw [cones_are_traced_words ds f h c]
+  constructor
+  · rintro ⟨i, j, d, word, v, hij, hj, hd, ht, hv, hc⟩
+    have hr := (D2.orbitReps2d_ok hs.set (show i ≤ ds.dim by omega) hj).range d hd
+    exact ⟨i, j, d, word, v, hij, hj, hd,
+      (traced_iff_walk hs _ (by omega) hj hr.1 hr.2 word v).1 ht, hv, hc⟩
+  · rintro ⟨i, j, d, word, v, hij, hj, hd, ht, hv, hc⟩
+    have hr := (D2.orbitReps2d_ok hs.set (show i ≤ ds.dim by omega) hj).range d hd
+    exact ⟨i, j, d, word, v, hij, hj, hd,
+      (traced_iff_walk hs _ (by omega) hj hr.1 hr.2 word v).2 ht, hv, hc⟩
+
+example : ValidSym symB ∧ fundamentalGroup symB = .ok fgB ∧ fgB.cones ≠ [] :=
+  ⟨symB_hyps.1, symB_hyps.2.2.2.2.1, symB_hyps.2.2.2.2.2.1⟩
+
+/-- the same for the relators: a word is a returned relator iff it is the relator representative
+    of the non-trivial `word ^ v` for the orbit-walk word of a representative (for `i = j` the walk
+    has two crossings and gives the facet-pair words, `g²` for mirrors) -/
+theorem relators_are_orbit_walk_words (ds : DSymData) (hs : ValidSym ds) (f : FundGroup)
+    (h : fundamentalGroup ds = .ok f) :
+    ∃ reps : Nat → Nat → List Nat,
+      (∀ i j, i ≤ j → j ≤ ds.dim → D2.RepsOK ds i j (reps i j)) ∧
+      ∀ w : List Int, w ∈ f.relators ↔
+        ∃ i j d word v, i ≤ j ∧ j ≤ ds.dim ∧ d ∈ reps i j ∧
+          OrbitWalkWord ds f.edgeToWord i j d word v ∧
+          FW.raisedTo word (v : Int) ≠ [] ∧
+          w = FW.relatorRepresentative (FW.raisedTo word (v : Int)) := by
+  refine ⟨fun i j => ds.view.orbitReps2d i j,
+    fun i j hij hj => D2.orbitReps2d_ok hs.set (by omega) hj, fun w => ?_⟩
+  rw [relators_are_traced_words ds f h w]
+  constructor
+  · rintro ⟨i, j, d, word, v, hij, hj, hd, ht, hv, hc⟩
+    have hr := (D2.orbitReps2d_ok hs.set (show i ≤ ds.dim by omega) hj).range d hd
+    exact ⟨i, j, d, word, v, hij, hj, hd,
+      (traced_iff_walk hs _ (by omega) hj hr.1 hr.2 word v).1 ht, hv, hc⟩
+  · rintro ⟨i, j, d, word, v, hij, hj, hd, ht, hv, hc⟩
+    have hr := (D2.orbitReps2d_ok hs.set (show i ≤ ds.dim by omega) hj).range d hd
+    exact ⟨i, j, d, word, v, hij, hj, hd,
+      (traced_iff_walk hs _ (by omega) hj hr.1 hr.2 word v).2 ht, hv, hc⟩
+
+example : ValidSym symB ∧ fundamentalGroup symB = .ok fgB ∧ fgB.relators ≠ [] :=
+  ⟨symB_hyps.1, symB_hyps.2.2.2.2.1, by decide⟩
+
 /-! ## 5b. every returned letter is a generator -/
 
 /-- all letters of the relators, cone words and edge words are among `±1 … ±n`,
@@ -210,6 +286,12 @@ theorem fg_total (ds : DSymData) (hs : ValidSym ds) :
 
 example : ValidSym (DSymData.ofSimple ex2) := ex2_validSym
 
+/-- … and on the branched symbol `symB` (v = 4, 3; non-empty cone list), see `symB_hyps` -/
+example : ValidSym symB ∧ 1 ≤ symB.dim ∧ 1 ≤ symB.size ∧ symB.view.isConnected = true ∧
+    fundamentalGroup symB = .ok fgB ∧ fgB.cones ≠ [] :=
+  ⟨symB_hyps.1, symB_hyps.2.1, symB_hyps.2.2.1, symB_hyps.2.2.2.1, symB_hyps.2.2.2.2.1,
+    symB_hyps.2.2.2.2.2.1⟩
+
 /-! ## 7. every generator is carried by exactly one facet pair -/
 
 /-- For a valid symbol and every entry `g ↦ (d,i)` of `gen_to_edge`:
@@ -239,6 +321,12 @@ theorem generator_facet_pairs (ds : DSymData) (hs : ValidSym ds) (f : FundGroup)
 
 example : ValidSym (DSymData.ofSimple ex2) := ex2_validSym
 
+/-- … and on the branched symbol `symB` (v = 4, 3; non-empty cone list), see `symB_hyps` -/
+example : ValidSym symB ∧ 1 ≤ symB.dim ∧ 1 ≤ symB.size ∧ symB.view.isConnected = true ∧
+    fundamentalGroup symB = .ok fgB ∧ fgB.cones ≠ [] :=
+  ⟨symB_hyps.1, symB_hyps.2.1, symB_hyps.2.2.1, symB_hyps.2.2.2.1, symB_hyps.2.2.2.2.1,
+    symB_hyps.2.2.2.2.2.1⟩
+
 /-! ## 8. the returned group is a quotient of the textbook group (part (a) of the isomorphism) -/
 
 /-- `TGroup ds` (Proofs/FundGroupPres.lean) is the textbook presentation: one generator `x(d,i)` per
@@ -263,6 +351,12 @@ theorem textbook_onto_returned (ds : DSymData) (hs : ValidSym ds) (f : FundGroup
 
 example : ValidSym (DSymData.ofSimple ex2) := ex2_validSym
 
+/-- … and on the branched symbol `symB` (v = 4, 3; non-empty cone list), see `symB_hyps` -/
+example : ValidSym symB ∧ 1 ≤ symB.dim ∧ 1 ≤ symB.size ∧ symB.view.isConnected = true ∧
+    fundamentalGroup symB = .ok fgB ∧ fgB.cones ≠ [] :=
+  ⟨symB_hyps.1, symB_hyps.2.1, symB_hyps.2.2.1, symB_hyps.2.2.2.1, symB_hyps.2.2.2.2.1,
+    symB_hyps.2.2.2.2.2.1⟩
+
 /-! ## 8b. the tree relators of `TGroup` are those of a spanning tree -/
 
 /-- On a connected valid symbol `spanning_tree(ds)` (the facets whose generators `TGroup ds` kills)
@@ -284,6 +378,12 @@ theorem spanning_tree_is_spanning_tree (ds : DSymData) (hv : ValidSet ds.dset) (
 
 example : ValidSet ex2 ∧ 1 ≤ ex2.size ∧ (DSymData.ofSimple ex2).view.isConnected = true :=
   ⟨ex2_valid, by decide, by decide +kernel⟩
+
+/-- … and on the branched symbol `symB` (v = 4, 3; non-empty cone list), see `symB_hyps` -/
+example : ValidSym symB ∧ 1 ≤ symB.dim ∧ 1 ≤ symB.size ∧ symB.view.isConnected = true ∧
+    fundamentalGroup symB = .ok fgB ∧ fgB.cones ≠ [] :=
+  ⟨symB_hyps.1, symB_hyps.2.1, symB_hyps.2.2.1, symB_hyps.2.2.2.1, symB_hyps.2.2.2.2.1,
+    symB_hyps.2.2.2.2.2.1⟩
 
 /-! ## 9. the returned presentation presents the textbook group (◐ → proved for the model) -/
 
@@ -335,6 +435,12 @@ theorem returned_group_is_textbook_group (ds : DSymData) (hs : ValidSym ds) (hdi
 example : ValidSym (DSymData.ofSimple ex2) ∧ 1 ≤ (DSymData.ofSimple ex2).dim :=
   ⟨ex2_validSym, by decide⟩
 
+/-- … and on the branched symbol `symB` (v = 4, 3; non-empty cone list), see `symB_hyps` -/
+example : ValidSym symB ∧ 1 ≤ symB.dim ∧ 1 ≤ symB.size ∧ symB.view.isConnected = true ∧
+    fundamentalGroup symB = .ok fgB ∧ fgB.cones ≠ [] :=
+  ⟨symB_hyps.1, symB_hyps.2.1, symB_hyps.2.2.1, symB_hyps.2.2.2.1, symB_hyps.2.2.2.2.1,
+    symB_hyps.2.2.2.2.2.1⟩
+
 /-! ## 10. the Spec's executable textbook presentation presents the same group -/
 
 /-- `SRel ds` = the relators of `SpecC09.textbook (gOf ds)` — what the driver builds from the
@@ -359,6 +465,12 @@ theorem spec_textbook_presents_TGroup (ds : DSymData) (hs : ValidSym ds) (hdim :
 example : ValidSym (DSymData.ofSimple ex2) ∧ 1 ≤ (DSymData.ofSimple ex2).dim ∧
     1 ≤ (DSymData.ofSimple ex2).size ∧ (DSymData.ofSimple ex2).view.isConnected = true :=
   ⟨ex2_validSym, by decide, by decide, by decide +kernel⟩
+
+/-- … and on the branched symbol `symB` (v = 4, 3; non-empty cone list), see `symB_hyps` -/
+example : ValidSym symB ∧ 1 ≤ symB.dim ∧ 1 ≤ symB.size ∧ symB.view.isConnected = true ∧
+    fundamentalGroup symB = .ok fgB ∧ fgB.cones ≠ [] :=
+  ⟨symB_hyps.1, symB_hyps.2.1, symB_hyps.2.2.1, symB_hyps.2.2.2.1, symB_hyps.2.2.2.2.1,
+    symB_hyps.2.2.2.2.2.1⟩
 
 /-! ## 11. `SpecC09.simplify` preserves the presented group -/
 
@@ -396,6 +508,12 @@ theorem spec_compares_isomorphic_groups (ds : DSymData) (hs : ValidSym ds) (hdim
 example : ValidSym (DSymData.ofSimple ex2) ∧ 1 ≤ (DSymData.ofSimple ex2).dim ∧
     1 ≤ (DSymData.ofSimple ex2).size ∧ (DSymData.ofSimple ex2).view.isConnected = true :=
   ⟨ex2_validSym, by decide, by decide, by decide +kernel⟩
+
+/-- … and on the branched symbol `symB` (v = 4, 3; non-empty cone list), see `symB_hyps` -/
+example : ValidSym symB ∧ 1 ≤ symB.dim ∧ 1 ≤ symB.size ∧ symB.view.isConnected = true ∧
+    fundamentalGroup symB = .ok fgB ∧ fgB.cones ≠ [] :=
+  ⟨symB_hyps.1, symB_hyps.2.1, symB_hyps.2.2.1, symB_hyps.2.2.2.1, symB_hyps.2.2.2.2.1,
+    symB_hyps.2.2.2.2.2.1⟩
 
 /-! ## 12. the graph the driver hands to the Spec is the graph of the theorems -/
 
